@@ -34,8 +34,8 @@ func (P *projPoint) getXY() (x, y *mod.Int) {
 }
 
 func (P *projPoint) String() string {
-	P.normalize()
-	return P.c.pointString(&P.X, &P.Y)
+	x, y := P.affine()
+	return P.c.pointString(&x, &y)
 }
 
 func (P *projPoint) MarshalSize() int {
@@ -43,8 +43,8 @@ func (P *projPoint) MarshalSize() int {
 }
 
 func (P *projPoint) MarshalBinary() ([]byte, error) {
-	P.normalize()
-	return P.c.encodePoint(&P.X, &P.Y), nil
+	x, y := P.affine()
+	return P.c.encodePoint(&x, &y), nil
 }
 
 func (P *projPoint) UnmarshalBinary(b []byte) error {
@@ -106,6 +106,17 @@ func (P *projPoint) EmbedLen() int {
 	return P.c.embedLen()
 }
 
+// affine returns the affine coordinates of P without touching its
+// representation: encoding, printing or reading the data of a point must not
+// write to it (the point may be shared between goroutines for reading).
+func (P *projPoint) affine() (x, y mod.Int) {
+	var zi mod.Int
+	zi.Inv(&P.Z)
+	x.Mul(&P.X, &zi)
+	y.Mul(&P.Y, &zi)
+	return x, y
+}
+
 // Normalize the point's representation to Z=1.
 func (P *projPoint) normalize() {
 	P.Z.Inv(&P.Z)
@@ -125,8 +136,8 @@ func (P *projPoint) Pick(rand cipher.Stream) kyber.Point {
 
 // Extract embedded data from a point group element
 func (P *projPoint) Data() ([]byte, error) {
-	P.normalize()
-	return P.c.data(&P.X, &P.Y)
+	x, y := P.affine()
+	return P.c.data(&x, &y)
 }
 
 // Add two points using optimized projective coordinate addition formulas.
